@@ -37,6 +37,11 @@ def run_case(c):
         text = f"{c['target']}.{m}({recvname}) > v"              # the receiver parameter named explicitly
     elif c["path"] == "selfalias" and c["target"] in pop and m != "prop":
         text = f"{c['target']}.{m}({recvname} as who, x) > v"
+    elif c["path"] == "enter" and m != "prop":
+        text = f"{c['target']}.{m} > #enter"                     # the entry event of the method, for one receiver
+    elif c["path"] == "nested2" and c["target"] in pop and c.get("target2") in pop:
+        text = f"{c['target']}.tree > {c['target2']}.tree > v"   # two object-bound levels
+        m = "tree"
     elif c["path"] == "nested" and m != "prop":
         text = f"poll > {c['target']}.{m} > v"                   # the method is an inner step of a call path
     elif c["path"] == "nested_ctx" and m != "prop":
